@@ -139,10 +139,18 @@ func (l *link) deliver(n int) {
 	l.mu.Unlock()
 }
 
-// DeliverAll moves everything in flight (both directions) to the readers.
+// DeliverAll moves everything in flight (both directions) to the readers,
+// including a pending EOF.
 func (c *StreamConn) DeliverAll() {
-	c.ab.deliver(1 << 30)
-	c.ba.deliver(1 << 30)
+	for _, l := range []*link{c.ab, c.ba} {
+		l.deliver(1 << 30)
+		l.mu.Lock()
+		if l.wclosed && !l.eof {
+			l.eof = true
+			l.cond.Broadcast()
+		}
+		l.mu.Unlock()
+	}
 }
 
 func (c *StreamConn) linkEvents(l *link, dir string, hint func([]byte) []int, evs []Event) []Event {
